@@ -215,7 +215,7 @@ def candidatesScheds (swr : Swr) (inp : Input) : List Sched :=
   let o := inp.opt
   let infos := inp.probes.map getInfo
   let ss0 := infos.map (·.1)
-  let early := Gen.earlyMin o (nChangeable ss0)
+  let early := Gen.earlyMin o ss0.length (nChangeable ss0)
   if early && inp.scaleErr1 then [{}] else
   let glob := globalOf ss0 inp.explore
   let ss1 := gc o inp.active ss0
@@ -230,10 +230,10 @@ def candidatesScheds (swr : Swr) (inp : Input) : List Sched :=
     let elig := inp.active.eraseDups.filter fun h =>
       !scr.contains h && !Gen.assignSkip (glob h) && !Gen.tooBig o (glob h)
     let res := stageAssign o scr glob (elig.length + 1) [{ n := { n with picks := [] }, rest := elig, need2 := {} }]
-    res.map fun a => { a.n with need := n.need.add a.need2, sc := { a.n.sc with picks := a.n.picks } }
+    res.map fun a => { a.n with need := spaceAdd n.need a.need2, sc := { a.n.sc with picks := a.n.picks } }
   let final : List Node := afterAssign.flatMap fun n =>
     if n.c.crashed || divCrash o n.need then [n] else
-    if !Gen.spaceIsZero n.need then [n] else
+    if Gen.needUp (Gen.spaceIsZero n.need) then [n] else
     if Gen.scaleDownOn o then
       let stop := removableSuffix n.c.shards n.c.shards.length
       stageDown o (stop + 1) (stop - 1) [{ n with picks := [] }]
